@@ -25,3 +25,35 @@ func (dbgMon) AfterTx(w *World, tx *TxCtx) {
 		fmt.Printf("TXLOG %d/%d code=%d\n%s\n", tx.Block, tx.Idx, tx.Resp.Code, tx.Resp.Log)
 	}
 }
+
+// TestDumpSeed writes the event log of one generated run to SIM_DUMP (debug aid).
+func TestDumpSeed(t *testing.T) {
+	out := os.Getenv("SIM_DUMP")
+	if out == "" {
+		t.Skip()
+	}
+	prop := os.Getenv("SIM_PROP")
+	seed := envInt("SIM_SEED", 1)
+	tr, g := NewRun(prop, seed, "quick")
+	res := Execute(t, tr, g, prop, true)
+	_ = os.WriteFile(out, res.EventLog, 0o644)
+}
+
+// TestDumpSeq runs the first SIM_N seeds of the worker-0 sequence in one process and dumps the last one's event log.
+func TestDumpSeq(t *testing.T) {
+	out := os.Getenv("SIM_DUMPSEQ")
+	if out == "" {
+		t.Skip()
+	}
+	prop := os.Getenv("SIM_PROP")
+	n := envInt("SIM_N", 3)
+	base := envInt("VERIF_SEED", 1)
+	var last *RunResult
+	for i := int64(0); i < n; i++ {
+		seed := runSeed(base, prop, 0, i)
+		tr, g := NewRun(prop, seed, "quick")
+		last = Execute(t, tr, g, prop, true)
+		fmt.Println("SEQ", i, seed, last.EventHash)
+	}
+	_ = os.WriteFile(out, last.EventLog, 0o644)
+}
